@@ -1,5 +1,162 @@
-(* C08 -- placeholder while the model is validated; replaced by the final statements *)
-From Httoop Require Import Lib.Bytes Model.Headers Model.HeadersApi.
-Theorem C08_placeholder : forall h : hdrs, h = h.
-Proof. reflexivity. Qed.
-Print Assumptions C08_placeholder.
+(* C08 -- header collections are case-insensitive, order-preserving and round-trip; invalid field names are
+   rejected on parse and on assignment.
+   Only final statements here, each closed by [exact] and followed by Print Assumptions.
+   Model: Model/Headers.v (collection, Headers.parse) + Model/HeadersApi.v (mapping interface as a state machine,
+   compose, RFC 2047 values).  [step Repaired vew utitle dechdr] is the working tree after the D32 repair
+   (HEADER_RE tested before title()); utitle (str.title on non-ASCII text) and dechdr (email.header.decode_header)
+   are callees: every theorem holds for every instantiation. *)
+From Coq Require Import Permutation.
+From Httoop Require Import Lib.Bytes Lib.Split Lib.Variant Gen.HeadersT Gen.HeadersApiT
+  Model.Headers Model.HeadersApi Proofs.HeadersApi.
+Local Open Scope N_scope.
+
+(* ---- clause 1: the same answer for a field name in any letter case ---- *)
+(* the canonical stored name depends on the name only through its lower-cased form, and conversely *)
+Theorem C08_canon_lower : forall k, canon (lower k) = canon k.
+Proof. exact canon_lower. Qed.
+Print Assumptions C08_canon_lower.
+
+Theorem C08_canon_eq_iff_lower_eq : forall a b, canon a = canon b <-> lower a = lower b.
+Proof. exact canon_eq_iff. Qed.
+Print Assumptions C08_canon_eq_iff_lower_eq.
+
+(* assignment, append, deletion, pop, membership, getbytes and get: same new collection, same result / exception,
+   for two spellings of the key (bytes or str) that differ only in letter case *)
+Theorem C08_case_insensitive : forall vew utitle dechdr h o1 o2, op_ci o1 o2 ->
+  step Repaired vew utitle dechdr h o1 = step Repaired vew utitle dechdr h o2.
+Proof. exact step_case_insensitive. Qed.
+Print Assumptions C08_case_insensitive.
+Example C08_case_insensitive_nonvacuous :
+  op_ci (OSet (KB [x65; x54; x61; x47]) (VB [x31])) (OSet (KT [x45; x74; x41; x67]) (VB [x31])).
+Proof. constructor. reflexivity. Qed.
+
+(* ... and on the wire: lower-casing the field name of every header line (continuation lines untouched)
+   does not change what Headers.parse does with the block, errors included *)
+Theorem C08_parse_case_insensitive : forall ls h,
+  hparse_lines h None (map lower_name_line ls) = hparse_lines h None ls.
+Proof. exact parse_case_insensitive. Qed.
+Print Assumptions C08_parse_case_insensitive.
+
+(* ---- refinement: every operation sequence on the collection is simulated, result by result, by a reference
+   map keyed by the lower-cased name that knows nothing of title-casing or the spelling table ---- *)
+Theorem C08_ops_refine : forall vew utitle dechdr ops,
+  let impl := run Repaired vew utitle dechdr [] ops in
+  rrun vew dechdr [] ops = (abs (fst impl), snd impl).
+Proof. exact run_refines. Qed.
+Print Assumptions C08_ops_refine.
+
+(* invariant of every reachable collection: stored names are canonical (hence pairwise different modulo case) *)
+Theorem C08_reachable_canonical : forall vew utitle dechdr ops,
+  canonicalb (fst (run Repaired vew utitle dechdr [] ops)) = true.
+Proof. exact run_canonical. Qed.
+Print Assumptions C08_reachable_canonical.
+
+(* ---- clause 2: repeated fields on the wire are combined in arrival order with the separator of the field ---- *)
+(* a block of header lines without continuation lines is the left fold of its (name, value) pairs ... *)
+Theorem C08_parse_is_fold : forall l ls nv nvs h,
+  parse_line l = Some nv ->
+  Forall2 (fun l nv => starts_ws l = false /\ parse_line l = Some nv) ls nvs ->
+  hparse_lines h None (l :: ls) = Some (commit_all h (nv :: nvs)).
+Proof. exact hparse_lines_fold. Qed.
+Print Assumptions C08_parse_is_fold.
+
+(* ... and what is then stored under a name (looked up in any case) is the old value followed by the values of
+   the lines carrying that name (in any case), in arrival order, joined by the separator of the field *)
+Theorem C08_wire_order : forall k nvs h,
+  hget (canon k) (commit_all h nvs) = combine_vals (join_sep k) (hget (canon k) h) (field_values k nvs).
+Proof. exact wire_order. Qed.
+Print Assumptions C08_wire_order.
+
+Theorem C08_wire_order_fresh : forall k nvs,
+  hget (canon k) (commit_all [] nvs) =
+  match field_values k nvs with [] => None | vs => Some (join_with (join_sep k) vs) end.
+Proof. exact wire_order_fresh. Qed.
+Print Assumptions C08_wire_order_fresh.
+
+(* ---- clause 3: serialising and parsing yields an equal collection ---- *)
+(* bytes(h) is the block of lines plus the terminating empty line; the message parser cuts there *)
+Theorem C08_compose_shape : forall h, hlines h <> [] -> hcompose h = hblock h ++ CRLF ++ CRLF.
+Proof. exact hcompose_hblock. Qed.
+Print Assumptions C08_compose_shape.
+
+(* parse(compose h) = h in the order compose emits (priority, then name); wf_hdrs is boolean: valid canonical
+   distinct names, values (elements of list-element fields) without CRLF and without leading/trailing whitespace,
+   list-element fields in joined-canonical form *)
+Theorem C08_roundtrip : forall h, wf_hdrs h = true -> hparse [] (hblock h) = Some (sort_items h).
+Proof. exact compose_parse_roundtrip. Qed.
+Print Assumptions C08_roundtrip.
+
+(* i.e. an equal dict: same entries, same answer for every lookup *)
+Theorem C08_roundtrip_equal_collection : forall h, wf_hdrs h = true ->
+  exists h', hparse [] (hblock h) = Some h' /\ Permutation h h' /\ forall k, hget k h' = hget k h.
+Proof. exact compose_parse_equal_collection. Qed.
+Print Assumptions C08_roundtrip_equal_collection.
+
+Example C08_roundtrip_nonvacuous :
+  wf_hdrs [(X "5365742d436f6f6b6965", X "613d313b20657870697265733d225765642c203039204a756e2032303231222c20623d32");
+           (X "486f7374", X "6578616d706c652e6f7267"); (X "582d41", X "78202279203b22"); (X "45546167", X "")] = true.
+Proof. vm_compute. reflexivity. Qed.
+
+(* ---- clause 4: names ---- *)
+(* the regenerated HEADER_RE class is exactly the complement of the RFC 7230 token characters *)
+Theorem C08_header_re_is_token_complement : forall c, negb (inmask HEADER_RE_BAD c) = is_tchar c.
+Proof. exact header_re_is_tchar_complement. Qed.
+Print Assumptions C08_header_re_is_token_complement.
+
+(* accepted by assignment (any operation taking a key) <-> every octet of the name is a token character *)
+Theorem C08_names_assign : forall utitle k,
+  (exists ck, formatkey Repaired utitle k = Some ck) <-> forallb is_tchar (key_utf8 k) = true.
+Proof. exact names_assign. Qed.
+Print Assumptions C08_names_assign.
+
+(* accepted on the wire as the name of a header line <-> every octet is a token character
+   (a colon can never be part of a parsed name: the line is cut at its first colon) *)
+Theorem C08_names_wire : forall u v,
+  parse_line (u ++ COLON :: v) = Some (u, lstrip v) <-> forallb is_tchar u = true.
+Proof. exact names_wire. Qed.
+Print Assumptions C08_names_wire.
+
+(* pinned tree before the D32 repair: HEADER_RE is tested after title(); with str.title() mapping U+017F (long s)
+   to "S", the name <long s>et-cookie is accepted on assignment and stored as Set-Cookie *)
+Theorem C08_names_asfound_refuted : forall utitle,
+  utitle [xc5; xbf; x65; x74; x2d; x63; x6f; x6f; x6b; x69; x65] = [x53; x65; x74; x2d; x43; x6f; x6f; x6b; x69; x65] ->
+  exists k ck, formatkey AsFound utitle k = Some ck /\ forallb is_tchar (key_utf8 k) = false.
+Proof. exact names_asfound_refuted. Qed.
+Print Assumptions C08_names_asfound_refuted.
+
+(* observation recorded in DESIGN.md: the empty name is accepted on both sides *)
+Example C08_empty_name_accepted : forall utitle,
+  formatkey Repaired utitle (KB []) = Some [] /\ parse_line [COLON; x61] = Some ([], [x61]).
+Proof. intros; split; reflexivity. Qed.
+
+(* ---- text values (RFC 2047, concrete base64) ---- *)
+(* text outside Latin-1: sent as one base64 word of its UTF-8, read back exactly (repaired guard, D15) *)
+Theorem C08_value_roundtrip_unicode : forall dechdr t u, is_latin1 t = false -> utf8_enc t = Some u ->
+  exists raw, encode_rfc2047 t = Some raw /\ decode_rfc2047 Repaired dechdr raw = Some u.
+Proof. exact value_roundtrip_unicode. Qed.
+Print Assumptions C08_value_roundtrip_unicode.
+Example C08_value_roundtrip_unicode_nonvacuous : is_latin1 [0x61; 0x20AC] = false /\ utf8_enc [0x61; 0x20AC] = Some (X "61e282ac").
+Proof. split; vm_compute; reflexivity. Qed.
+
+(* Latin-1 text: sent raw, read back unless it looks like an encoded word itself (finding D16); either guard *)
+Theorem C08_value_roundtrip_latin1_partial : forall dechdr v t,
+  is_latin1 t = true -> looks_encoded v (latin1_enc t) = false ->
+  encode_rfc2047 t = Some (latin1_enc t) /\ decode_rfc2047 v dechdr (latin1_enc t) = utf8_enc t.
+Proof. exact value_roundtrip_latin1. Qed.
+Print Assumptions C08_value_roundtrip_latin1_partial.
+Example C08_value_roundtrip_latin1_nonvacuous :
+  is_latin1 [0xe9; 0x3d; 0x3f; 0x20] = true /\ looks_encoded Repaired (latin1_enc [0xe9; 0x3d; 0x3d; 0x3f; 0x20]) = false.
+Proof. split; vm_compute; reflexivity. Qed.
+
+Theorem C08_value_latin1_refuted : forall dechdr,
+  exists t, is_latin1 t = true /\ encode_rfc2047 t = Some (latin1_enc t) /\
+    decode_rfc2047 Repaired dechdr (latin1_enc t) <> utf8_enc t.
+Proof. exact value_roundtrip_latin1_refuted. Qed.
+Print Assumptions C08_value_latin1_refuted.
+
+(* pinned tree before the D15 repair: words whose base64 ends in "==" are not decoded *)
+Theorem C08_value_asfound_refuted : forall dechdr,
+  exists t u raw, is_latin1 t = false /\ utf8_enc t = Some u /\ encode_rfc2047 t = Some raw /\
+    decode_rfc2047 AsFound dechdr raw <> Some u.
+Proof. exact value_roundtrip_asfound_refuted. Qed.
+Print Assumptions C08_value_asfound_refuted.
